@@ -74,6 +74,7 @@ func genFunction(prog *ssa.Program, cs *Contracts, fn *ssa.Function, fc *FuncCon
 	}()
 	st0 := &State{reach: tTrue, heaps: map[string]T{}, cells: map[string]Val{}}
 	st0.alloc = c.fresh("alloc0", SInt)
+	c.alloc0 = st0.alloc
 	c.emit(fmt.Sprintf("(assert (>= %s 1))", st0.alloc.S))
 	if c.locMode {
 		// the storage of an array that exists at entry is an object that exists at entry
